@@ -32,6 +32,8 @@ COMMON = ["Calcite", "Gypsum", "Dolomite", "Aragonite", "Anhydrite", "Quartz", "
 SS_FAMILIES = [["Calcite", "Strontianite", "Rhodochrosite", "Siderite", "Smithsonite", "Magnesite", "Otavite", "Witherite", "Cerussite"],
                ["Aragonite", "Strontianite", "Witherite", "Cerussite"],
                ["Barite", "Celestite", "Anhydrite", "Anglesite"], ["Gypsum", "Anhydrite"]]
+ZAPPROX = {"Na": 1, "K": 1, "Ca": 2, "Mg": 2, "Cl": -1, "S(6)": -2, "C(4)": -1, "Si": 0, "Al": 3, "Fe(2)": 2, "Fe(3)": 3, "Ba": 2,
+           "Sr": 2, "Mn(2)": 2, "F": -1, "P": -1.5, "Zn": 2, "Cd": 2, "Pb": 2, "Cu(2)": 2}
 REACTANTS = [("HCl", 1e-5, 0.05), ("NaOH", 1e-5, 0.05), ("CO2", 1e-5, 0.05), ("CaCl2", 1e-5, 0.02), ("Na2SO4", 1e-5, 0.02),
              ("NaCl", 1e-4, 0.5), ("H2SO4", 1e-5, 0.01), ("Na2CO3", 1e-5, 0.02), ("H2O", 0.1, 20), ("MgCl2", 1e-5, 0.02)]
 
@@ -85,12 +87,26 @@ def gen_case(rng, i, dbinfos):
         c = rng.choices(COMPS, CW)[0]
         if all(c[0] != d["kw"] for d in comps):
             comps.append({"kw": c[0], "conc": float(fmt(loguni(rng, *c[2])))})
+    want_ss = rng.random() < 0.4
+    if want_ss:
+        add = rng.choice([["Ca", "C(4)", "Sr"], ["Ca", "C(4)", "Mn(2)", "Mg"], ["Ba", "Sr", "S(6)"], ["Ca", "C(4)", "Ba", "Sr"],
+                          ["Ca", "C(4)", "Fe(2)", "Mn(2)"], ["Ca", "S(6)"], ["Ca", "C(4)", "Zn", "Cd"]])
+        for kw in add:
+            if all(kw != d["kw"] for d in comps):
+                c = next(c for c in COMPS if c[0] == kw)
+                comps.append({"kw": kw, "conc": float(fmt(loguni(rng, *c[2])))})
     elems = sorted({e for d in comps for c in COMPS if c[0] == d["kw"] for e in c[1]})
     temp = round(rng.choice([25.0, 25.0, rng.uniform(0, 100), rng.uniform(0, 100), rng.uniform(5, 40)]), 2)
     spec = {"id": i, "db": db, "temp": temp, "pH": round(rng.uniform(3.5, 10.5), 2), "pe": round(rng.choice([4.0, 4.0, rng.uniform(-3, 12)]), 2),
             "comps": comps, "water": 1.0 if rng.random() < 0.8 else float(fmt(loguni(rng, 0.05, 5)))}
-    if rng.random() < 0.5:
-        spec["charge"] = rng.choice([d["kw"] for d in comps if d["kw"] in ("Na", "Cl", "K", "Ca")] or [None])
+    if rng.random() < 0.6:
+        # put the charge-balance keyword on the ion that has to be ADDED (Cl for a cation excess, Na for an anion excess)
+        net = sum(ZAPPROX.get(d["kw"], 0) * d["conc"] for d in comps)
+        kw = "Cl" if net > 0 else "Na"
+        if all(d["kw"] != kw for d in comps):
+            comps.append({"kw": kw, "conc": float(fmt(max(abs(net), 1e-5)))})
+        spec["charge"] = kw
+        elems = sorted(set(elems) | {kw})
     pool = eligible(info, elems)
     pool1 = eligible(info, elems, 1)
     common = [p for p in COMMON if p in pool]
@@ -117,7 +133,7 @@ def gen_case(rng, i, dbinfos):
             k = rng.randint(1, 3)
             ex["comps"] = []
             for f, z in rng.sample(forms, k):
-                if f == "X" or f[:-1].rstrip("X2") in elems or f.startswith("Na") or f.startswith("K"):
+                if True:
                     ex["comps"].append({"formula": f, "moles": float(fmt(cap * rng.uniform(0.1, 1))), "x": z})
             if not ex["comps"]:
                 ex["comps"] = [{"formula": "X", "moles": cap, "x": 1}]
@@ -142,7 +158,7 @@ def gen_case(rng, i, dbinfos):
             su["s"] = float(fmt(su["w"] * rng.uniform(0.01, 0.1)))
         spec["surface"] = su
     # solid solutions
-    if rng.random() < 0.35:
+    if want_ss:
         fam = [[m for m in f if m in pool] for f in SS_FAMILIES]
         fam = [f for f in fam if len(f) >= 2]
         if fam:
@@ -192,6 +208,8 @@ def gen_case(rng, i, dbinfos):
             st["temp"] = round(rng.uniform(0, 100), 2)
         stages.append(st)
     spec["stages"] = stages
+    if rng.random() < 0.12:
+        spec["high_precision"] = True
     if rng.random() < 0.06:
         spec["knobs"] = rng.choice(["-convergence_tolerance 1e-10", "-step_size 10", "-pe_step_size 5", "-diagonal_scale true", "-tolerance 1e-14"])
     return spec
@@ -281,7 +299,9 @@ def render(spec):
                 L.append(f"  -tempk {fmt(ss['tempk'])}")
             L.append(f"  -{ss['parm']} " + " ".join(fmt(x) for x in ss["p"]))
     items = punch_items(spec)
-    L += ["SELECTED_OUTPUT 1", " -reset false", " -high_precision true", " -simulation true", " -state true", " -step true"]
+    L += ["SELECTED_OUTPUT 1", " -reset false", " -simulation true", " -state true", " -step true"]
+    if spec.get("high_precision"):
+        L.append(" -high_precision true")   # also sets convergence_tolerance to 1e-12
     if spec["phases"]:
         L.append(" -equilibrium_phases " + " ".join(p["name"] for p in spec["phases"]))
         L.append(" -saturation_indices " + " ".join(p["name"] for p in spec["phases"]))
@@ -322,7 +342,6 @@ def render(spec):
             L.append(f"SAVE {s} 1")
         L.append("END")
         # a stage's REACTION / REACTION_TEMPERATURE must not leak into the next stage
-        L += ["USE solution none", "DELETE", " -reaction 1", " -temperature 1", "END"] if False else []
     L += ["DUMP", " -equilibrium_phases 1", " -exchange 1", " -surface 1", " -solid_solutions 1", "END"]
     return "\n".join(L) + "\n"
 
